@@ -63,7 +63,10 @@ def is_local_dir_url(url: str) -> bool:
 
 ###
 # Sequence types (allowed only for type checking in treat-as/instance-of statements)
-function('empty-sequence', nargs=0, label='sequence type')
+@method(function('empty-sequence', nargs=0, label='sequence type'))
+def evaluate__empty_sequence_type(self: XPathFunction, context: ta.ContextType = None) \
+        -> NoReturn:
+    raise self.error('XPST0003', "empty-sequence() is a sequence type, not an expression")
 
 
 @method(function('item', nargs=0, label='sequence type'))
